@@ -62,3 +62,17 @@ Theorem C02_cond_cov_quasisep_qsm (F : fieldType) sq lt (d : vec F) (l : tri F) 
   den n R = den n Mk + den n Nq - (den n Mk)^T *m X.
 Proof. exact: cond_cov_quasisep_qsm. Qed.
 Print Assumptions C02_cond_cov_quasisep_qsm.
+
+(* DirectSolver.condition on the model, the factor computed by the model itself (Model/Dense.v): for a symmetric covariance with
+   positive leading principal minors the returned covariance is K** + N* - K*^T S^-1 K* *)
+From TinyGP Require Import Theory.DenseThy.
+Import Order.TTheory Num.Theory.
+Theorem C02_cond_cov_direct (R : rcfType) n nt (var : vec R) (S Ks Kss : mat R) (Nstar : noise R) (Nsm : 'M[R]_nt) (X : 'M[R]_(n, nt)) :
+  let rops := @fops R Num.sqrt (fun x y => x < y) in
+  let s := MkD n var S (dense_chol rops n S) in
+  (mx_of n n S)^T = mx_of n n S -> (forall m, (0 < m <= n)%N -> 0 < \det (mx_of m m S)) ->
+  mx_of nt nt (nadd rops Nstar Kss) = mx_of nt nt Kss + Nsm ->
+  mx_of n n S *m X = mx_of n nt Ks ->
+  mx_of nt nt (direct_condition rops nt s Ks Kss Nstar) = mx_of nt nt Kss + Nsm - (mx_of n nt Ks)^T *m X.
+Proof. move=> rops s sym minors HN SX; exact: (cond_cov_direct var sym minors HN SX). Qed.
+Print Assumptions C02_cond_cov_direct.
